@@ -430,6 +430,42 @@ def damaged_metadata_sections(wd, t, rnd):
                     bb = list(b)
                     bb[body + pos:body + pos + len(enc_)] = enc_
                     out.append(("cuesheet-text-field", bb))
+            # 64-bit offsets at their extremes: lead-in, the first track's offset, its first index point's offset (track record at
+            # body + 396: offset 8, number 1, ISRC 12, flags 1, reserved 13, index count 1; index: offset 8, number 1, reserved 3)
+            U = 1 << 64
+            t0 = body + 396
+            for toff, ioff in ((U - 1, None), (U - 3, 10), (U - 2, 1), (1 << 63, 1 << 63), (None, U - 1), ((1 << 63) - 1, 1), (U - 588, 588), (U - 1176, 588)):
+                bb = list(b)
+                if toff is not None:
+                    bb[t0:t0 + 8] = list(toff.to_bytes(8, "big"))
+                if ioff is not None and bb[t0 + 35] >= 1:
+                    bb[t0 + 36:t0 + 44] = list(ioff.to_bytes(8, "big"))
+                out.append(("cuesheet-offsets", bb))
+            for lead in (U - 1, 1 << 63):
+                bb = list(b)
+                bb[body + 128:body + 136] = list(lead.to_bytes(8, "big"))
+                out.append(("cuesheet-offsets", bb))
+            # the same for every later track (its record is found by walking the track list); offsets kept ascending so that the
+            # sheet still parses: the last real track far out, the lead-out just behind it
+            ntr = b[body + 395]
+            recs = []
+            pos = t0
+            for _ in range(ntr):
+                if pos + 36 > len(b):
+                    break
+                recs.append(pos)
+                pos += 36 + 12 * b[pos + 35]
+            if len(recs) >= 3:
+                last_real, leadout = recs[-2], recs[-1]
+                for toff, lo_ in ((U - 2 - 588 * 2, U - 588 * 2 + 586), (U - 1176, U - 588), ((1 << 63), (1 << 63) + 588), (U - 3, U - 2), (U - 12, U - 1)):
+                    bb = list(b)
+                    bb[last_real:last_real + 8] = list(toff.to_bytes(8, "big"))
+                    bb[leadout:leadout + 8] = list(lo_.to_bytes(8, "big"))
+                    out.append(("cuesheet-offsets", bb))
+                    if bb[last_real + 35] >= 2:
+                        b2 = list(bb)
+                        b2[last_real + 36 + 12:last_real + 36 + 20] = list((10).to_bytes(8, "big"))
+                        out.append(("cuesheet-offsets", b2))
     return clist, encs, out
 
 
@@ -484,6 +520,15 @@ def run_c12(pid):
         for k in range(1, 258):
             lines += ["TRACK %d AUDIO" % k, "INDEX 01 %s" % (mmssff(k - 1) if cdda else str((k - 1) * 5))]
         add("cue", "many-tracks", text="\n".join(lines) + "\n", total=588 * 10 ** 6 + (0 if cdda else 1))
+    # index positions whose conversion to samples sits at the edge of 64 bits: minutes around 2^64 / (60 * 75 * 588), 2^64 / (60 * 75)
+    # and 2^64 itself, with seconds / frames on both sides of the carry; plain sample offsets around 2^64 for the non-CD-DA grammar
+    U = 1 << 64
+    for m_ in sorted({(U - 1) // 2646000 + d for d in (-1, 0, 1)} | {(U - 1) // 4500 + d for d in (-1, 0, 1)} | {U - 1, U, 1 << 32, (1 << 63) // 2646000}):
+        for ssff in ("00:00", "07:32", "07:33", "07:34", "59:74"):
+            add("cue", "minute-boundary", text="TRACK 01 AUDIO\n  INDEX 01 00:00:00\nTRACK 02 AUDIO\n  INDEX 01 %d:%s\n" % (m_, ssff), total=588 * 10 ** 6)
+            add("cue", "minute-boundary", text="TRACK 01 AUDIO\n  INDEX 00 00:00:00\n  INDEX 01 %d:%s\n" % (m_, ssff), total=588 * 10 ** 6)
+    for off in (U - 1, U, U - 2, (1 << 63), (1 << 63) - 1, U // 588, U // 588 + 1):
+        add("cue", "minute-boundary", text="TRACK 01 AUDIO\n  INDEX 01 0\nTRACK 02 AUDIO\n  INDEX 01 %d\n" % off, total=588 * 10 ** 6 + 1)
     # non-ASCII arguments (multi-byte characters at every offset) where the importer slices fixed-width fields
     for ch in ("\u00e9", "\u8a9e", "\U0001F600"):
         for pos in range(0, 12):
